@@ -40,11 +40,11 @@ TOLK = 1e-9
 
 def cases(tier, seed):
     out = []
-    n = 30 if tier == 'quick' else 300
+    n = 30 if tier == 'quick' else 800
     for i in range(n):
         out.append({'name': 'asm-%d' % i, 'kind': 'asm',
                     'seed': [seed, 71, i]})
-    n = 14 if tier == 'quick' else 120
+    n = 14 if tier == 'quick' else 400
     for i in range(n):
         out.append({'name': 'core-%d' % i, 'kind': 'core',
                     'seed': [seed, 72, i],
